@@ -34,6 +34,15 @@ def asm(text, opt, tmp, tag):
     return out, ""
 
 
+ONLY_IF_ACCEPTED = [
+    "int sz1(void) { return sizeof(\"ab\" L\"cd\"); }",
+    "int sz2(void) { return sizeof(\"ab\" u\"cd\" \"ef\") + 100 * sizeof(L\"a\" \"b\") + 10000 * sizeof(\"a\" U\"b\"); }",
+    "const void *ws = \"id=\" L\"x\"; const void *w2 = u8\"a\" \"b\";",
+    "int mc(void) { return L'ab' + 3; }",
+    "struct SA { int a; _Static_assert(sizeof(int) > 1, \"m\"); int b; }; int ssa = sizeof(struct SA);",
+]
+
+
 def check(args):
     text, idx, tmpdir, quick = args
     r = py_parse_obj(text, "")
@@ -89,6 +98,9 @@ def run(ctx):
         jobs = [(t, i, tmpdir, ctx.quick()) for i, t in enumerate(progs_ + corp)]
         # hand-written programs in which every token matters: always at -O0 and -O1
         jobs += [(t, len(jobs) + i, tmpdir, False) for i, t in enumerate(meaning.PROGRAMS)]
+        # valid C that the unchanged parser rejects (recorded under C01) is skipped here - but should a
+        # change make it accepted, what comes out must still mean the same to the compiler
+        jobs += [(t, len(jobs) + i, tmpdir, False) for i, t in enumerate(ONLY_IF_ACCEPTED)]
         # the declaration shapes of the C03 specification (every derivation sequence x context x base
         # specifier, incl. several declarators sharing `_Atomic(T)`): what gcc accepts is compared
         spec_decl = []
